@@ -167,3 +167,17 @@ package types
 //@   ensures sub.ver == upd(old(sub.ver), s, old(sub.ver[s]) + 1) && id.Version == sub.ver[s]
 //@ iface func (s CommitStore) GetStoreType() (r StoreType)
 //@   ensures true
+
+// observer for queries routed to a substore (C14): q.calls counts them, q.recv / q.height / q.data / q.prove /
+// q.path record the last one, q.res what it answered
+//@ ghost q.calls Int
+//@ ghost q.recv $store/types.Queryable
+//@ ghost q.height Int
+//@ ghost q.prove Bool
+//@ ghost q.data $[]byte
+//@ ghost q.path $string
+//@ ghost q.resheight Int
+//@ ghost q.resvalue $[]byte
+//@ iface func (s Queryable) Query(req abci.RequestQuery) (res abci.ResponseQuery)
+//@   modifies q.*
+//@   ensures q.calls == old(q.calls) + 1 && q.recv == s && q.height == req.Height && q.prove == req.Prove && q.data == req.Data && q.path == req.Path && q.resheight == res.Height && q.resvalue == res.Value
